@@ -64,6 +64,13 @@ Proof. destruct p; cbn; congruence. Qed.
 Lemma has_key_holds p : has_key p = true -> holds_local p = true.
 Proof. destruct p; cbn; congruence. Qed.
 
+Lemma label_eq_dec (a b : label) : {a = b} + {a <> b}.
+Proof. decide equality. Qed.
+
+(** the lease re-grant of a member changes nothing the lock depends on *)
+Lemma step_regrant_ideal cfg s t : step ideal cfg s t LRegrant = Some s.
+Proof. unfold step. destruct (pcs s t); reflexivity. Qed.
+
 Section Lock.
 Variable cfg : tid -> thr.
 
@@ -151,9 +158,11 @@ Qed.
 
 Lemma inv_step s t l s' : Inv s -> step ideal cfg s t l = Some s' -> Inv s'.
 Proof.
-  intros I H. unfold step in H. cbn [lslot ideal q_local_per_handle] in H.
+  intros I H. destruct (label_eq_dec l LRegrant) as [->|Hnr].
+  { rewrite step_regrant_ideal in H. inversion H; subst; assumption. }
+  unfold step in H. cbn [lslot ideal q_local_per_handle] in H.
   set (m := t_mem (cfg t)) in *.
-  destruct l; destruct (pcs s t) eqn:Ep; try discriminate.
+  destruct l; try congruence; destruct (pcs s t) eqn:Ep; try discriminate.
   - (* LLocalLock *)
     destruct (is_get (t_req (cfg t))); [discriminate|].
     destruct (local s m O) eqn:El; [discriminate|]. inversion H; subst; clear H.
